@@ -10,8 +10,17 @@ for pair in sys.argv[2:]:
     if not m:
         sys.exit(f'not found: {old}')
     rest = src[m.end():]
-    ends = [i for i in (rest.find(':= by'), rest.find(':=\n'), rest.find('\n  | '), rest.find(' :=\n')) if i >= 0]
-    sig = rest[:min(ends)].rstrip()
+    # the signature ends at the first `:=` (or first pattern-matching alternative) outside all brackets
+    depth, end = 0, None
+    for i, ch in enumerate(rest):
+        if ch in '([{⟨':
+            depth += 1
+        elif ch in ')]}⟩':
+            depth -= 1
+        elif depth == 0 and (rest.startswith(':=', i) or rest.startswith('\n  | ', i)):
+            end = i
+            break
+    sig = rest[:end].rstrip()
     # preceding doc comment
     before = src[:m.start()].rstrip()
     doc = ''
